@@ -4,17 +4,20 @@
              short-circuit, scalar/list structure), lcapy/config.py, lcapy/extrafunctions.py
              (eval / rewrite bodies), lcapy/acdc.py (CausalChecker argument test)
                                        -> Gen/NumFuncsGen.v   (tools/tr_numfuncs.py)
-             lcapy/simulator.py, lcapy/mnacpts.py (_r_model), lcapy/sexpr.py (bilinear substitution)
+             lcapy/simulator.py, lcapy/mnacpts.py (_r_model), lcapy/sexpr.py (bilinear substitution, time bases of
+             _response_impulse_invariance)
                                        -> Gen/NumSimGen.v     (tools/tr_numsim.py)
   prove      Gen/C17_f_<key>.v, C17_rw_<cls>.v  num_eq_sym_<f>, rw_eq_eval_<f> (fixed templates below)
              props/C17.v      causal masking, no extrapolation, list = map (about the generated guard/program)
              props/C17sim.v   one-step facts of the companion models and of the bilinear substitution
+             props/C17resp.v  response_delay_time_base, response_h_sampled_from_zero (theory NumEvalResp.v)
              Gen/C17_expr.v   evaluate_agrees_with_subs: for ALL expressions over the proved functions
   correspond real evaluate() and exact sympy substitution vs the two instantiations of the model,
              evaluated by vm_compute inside Coq at dyadic rational points (exact verdicts only)
   search     independent oracles: exact comparison evaluate vs substitution away from discontinuities
              (python Fractions); float comparison vs sympy.N(...,50) for the transcendental class;
-             step-halving convergence of Simulator / response() against closed forms
+             step-halving convergence of Simulator / response() against closed forms; response() for every
+             method on time windows starting at / before / after 0, with and without a delay factor
 Partial: NumPy floating point, lambdify's printer, convergence as h -> 0 for arbitrary circuits are
 outside the model (named in the evidence).
 """
@@ -50,10 +53,19 @@ MANIFEST = {
             'sympy substitution at dyadic rational points (exact verdicts) and at arbitrary float points / large values (verdict '
             '|model - exact value of the float| <= 1e-9 (1 + |model|) computed in Qc); every step of real Simulator runs of '
             'multi-component circuits on uniform and non-uniform time vectors is re-checked in Coq against the stamped system '
-            '(A + stamps(geq(dt_k))) x_k = Z(t_k) + veq(dt_k, x_(k-1)) built from the translated formulas.',
+            '(A + stamps(geq(dt_k))) x_k = Z(t_k) + veq(dt_k, x_(k-1)) built from the translated formulas.  response(): the time-base '
+            'bookkeeping of _response_impulse_invariance is translated (which vector the impulse response is sampled on, which one is '
+            'the abscissa of the interpolation that applies a delay exp(-s T), where the interpolant is read) and response_delay_time_base '
+            'is proved about it: for every node-reproducing interpolation operator, window start t0, step and delay of m whole steps the '
+            'delayed output is the convolved output moved by m samples, i.e. it is sampled on the caller\'s grid '
+            '(response_h_sampled_from_zero: the impulse response is sampled at k dt); the recorded interp1d call of real runs is '
+            're-evaluated in Coq against the translated bases and an exact linear-interpolation model.  Search: response() for every '
+            'method name on time windows starting at, before and after 0, with and without delay, step / exponential inputs switched '
+            'on inside the window, against closed-form responses (error <= C dt on the fine grid and shrinking with the step).',
     'note': 'PARTIAL: NumPy floating point, the lambdify printer, the limit()/simplify() fall-backs of evaluate, Bessel functions, '
             'the overflow clamp of exp, numpy.linalg.inv (its result is re-checked per step, not modelled) and convergence of '
-            'Simulator/response as h -> 0 for arbitrary circuits are outside the model; they are exercised only by the float '
+            'Simulator/response as h -> 0 for arbitrary circuits (incl. the size of the interpolation error for delays that are not whole '
+            'steps, scipy interp1d/lfilter/convolve) are outside the model; they are exercised only by the float '
             'search oracle (tolerance 1e-9, reported only above 1e-6).  Trusted: Coq '
             'kernel/vm_compute; tools/tr_numfuncs.py, tools/tr_numsim.py; statement templates in checks/c17.py; hand-written '
             'specification of SymPy Heaviside/sign/DiracDelta/sinc in coq/theory/NumEval.v (validated by the exact-substitution '
